@@ -43,11 +43,8 @@ def single_notify_when_registered(cond, obs):
     obs.notify_done()
 
 
-def event_waiter(ev, obs, has_timeout):
-    if has_timeout:
-        r = ev.wait(1.0)
-    else:
-        r = ev.wait()
+def event_waiter(ev, obs, timeout):
+    r = ev.wait(timeout)
     obs.event_wait_returned(r)
 
 
